@@ -48,8 +48,11 @@ THEOREMS = [
     "Jinns.Cartesian.border_1d_fixed",
     "Jinns.Cartesian.productRows_cartesian",
     "Jinns.Cartesian.pairedRows_paired",
+    "Jinns.Cartesian.holdsC14_combine",
+    "Jinns.Cartesian.holdsC14_model",
+    "Jinns.Cartesian.holdsC14_runNS",
 ]
-LEAN_MODULES = ["JinnsProofs.C14"]
+LEAN_MODULES = ["JinnsProofs.C14", "JinnsProofs.C04C14Holds"]
 RULE = ("cases = one call of make_cartesian_product on integer arrays (rank 2 or 3), or a CubicMeshPDENonStatio "
         "(dim, product mode, border or not, n/nt/nb, batch sizes, number of get_batch calls) whose post-state and batch "
         "are recorded after every call, or a constructor call that must be rejected; non-trivial = both factors have "
